@@ -260,6 +260,22 @@ class FakeJob:
         self.host = vt.host
         self.batch = vt.batch
         self.died = False  # killed together with its node
+        self.evfh = None
+        if world.job_event_factory is not None and self.env.get("JADE_RUNTIME_OUTPUT") and self.name:
+            # the job process logs structured events into its own job-outputs/<job>/events.log and keeps the file open
+            # (as a real process with a FileHandler does): one event now, one when it ends
+            d = os.path.join(self.env["JADE_RUNTIME_OUTPUT"], "job-outputs", self.name)
+            os.makedirs(d, exist_ok=True)
+            self.evpath = os.path.join(d, "events.log")
+            self.evfh = REAL.open(self.evpath, "a")
+            self._log_event("started")
+
+    def _log_event(self, phase):
+        text = self.world.job_event_factory(self, phase)
+        self.evfh.write(text + "\n")
+        self.evfh.flush()
+        self.world.evseq += 1
+        self.world.events_written.append((self.evpath, text, f"{self.name}:job", self.world.evseq))
 
     def poll(self):
         return self.returncode
@@ -605,6 +621,8 @@ class World:
         self.event_logging = False  # virtualise the "_jade_event" logger per process and record what reaches *events.log files
         self.events_written = []  # (file, text, process, seq) of every record a FileHandler wrote to an *events.log file
         self.event_file_reads = []  # (file, seq, process): an *events.log file opened for reading (consolidation)
+        self.event_file_appends = []  # (file, seq, process): an *events.log file opened for appending outside logging
+        self.job_event_factory = None  # f(job, phase) -> text of a structured event the fake job processes log
         self.evseq = 0
         self.shared_node_hosts = 0  # 0: every batch on its own host; k: batches share k host names
         self.exotic_plan = []  # [{"at": step, "steps": duration, "which": n}] unusual scheduler states (see _exotic_tick)
@@ -697,7 +715,12 @@ class World:
         res = {r[0] for r in rows}
         snap = {"i": len(self.log), "dir": outdir, "by": by, "files": data, "results": sorted(res), "rows": rows,
                 "active": sorted(j for j, r in self.slurm.items()
-                                 if r["state"] in ("PENDING", "RUNNING") and r["outdir"] == outdir)}
+                                 if r["state"] in ("PENDING", "RUNNING") and r["outdir"] == outdir),
+                "sublock": os.path.exists(os.path.join(outdir, "submitter.lock")),  # a submitter round is in progress
+                # alive for certain at this instant: not started yet, or one of its job processes is running right now
+                "alive": sorted(j for j, r in self.slurm.items() if r["outdir"] == outdir and (
+                    r["state"] == "PENDING" or (r["state"] == "RUNNING" and r["vt"] is not None and not r["vt"].dead and any(
+                        x.batch == j and x.returncode is None and not x.died for x in self.jobs))))}
         try:
             with REAL.open(os.path.join(outdir, "results.json")) as fh:
                 rj = json.load(fh)
@@ -1253,6 +1276,10 @@ class World:
         if rc is None:
             rc = self.exit_codes.get(job.name, 0)
         job.returncode = rc
+        if job.evfh is not None:
+            job._log_event("ended")
+            job.evfh.close()
+            job.evfh = None
         self.note("finish", name=job.name, rc=rc, batch=job.batch)
 
     def end_batch(self, jid):
@@ -1560,6 +1587,10 @@ def install():
         path = os.path.abspath(os.fspath(file))
         if vt.dead:
             raise Killed()
+        if w.event_logging and "a" in mode and path.endswith("events.log"):
+            # run-jobs appends its jobs' own event files to its node file (JobRunner._aggregate_events)
+            w.evseq += 1
+            w.event_file_appends.append((path, w.evseq, vt.proc.name))
         if not w.file_yields or "b" in mode or path.endswith(".log") or "/scratch/" in path:
             w._fs_point(vt, "open-" + mode, path)
             return REAL.open(file, mode, *a, **kw)
